@@ -211,6 +211,11 @@ def run(ctx: Ctx) -> Result:
             with vmrun.Env(cfg) as env:
                 ok1 = env.F.run_auth_scripts([w.bytes, l1.bytes], dict(sf))
                 sig = T.decrypt_adapter(w, t_raw)
+                # the decrypt builder works on the (sa, R) pair the adapter witness leaves on TOP: whatever else a witness pushed first stays below
+                for pre_ in (bytes([3, 9]) + b'unrelated', bytes([3, 32]) + t):
+                    sig_b = T.decrypt_adapter(pre_ + w.bytes, t_raw)
+                    if sig_b != sig:
+                        viol('decrypt_adapter on an adapter witness that pushed another item first (e.g. the tweak scalar of the single-script lock)', {'seed': seed.hex(), 'tweak': t_raw.hex(), 'witness': (pre_ + w.bytes).hex()}, sig.hex(), sig_b.hex())
                 wsig = T.Script.from_src('push x' + sig.hex() + (flags if flags != '00' else ''))
                 ok3 = env.F.run_auth_scripts([wsig.bytes, l3.bytes], dict(sf))
                 okp = env.F.run_auth_scripts([w.bytes, p2.bytes], dict(sf)) if False else True
@@ -254,6 +259,40 @@ def run(ctx: Ctx) -> Result:
         if not (st2 == 'OK' and it2[-1] == b'\xff'):
             if 'K4' in known: res.known.append(('K4', 'OP_MAKE_ADAPTER_SIG_PRIVATE output (T, R, sa = t + r + c*x) never satisfies OP_CHECK_ADAPTER_SIG (upstream issue #18)'))
             else: viol('MAKE_ADAPTER_SIG_PRIVATE vs CHECK_ADAPTER_SIG', {'finding': 'K4'}, 'true', o2)
+    # a sign_script_prefix runs before the message is built - in the witness builder as in a lock that carries the same prefix: with
+    # a signature extension that the prefix switches on, the adapter is over the extended message (passes the prefixed lock, decrypts
+    # to a signature the prefixed signature lock accepts) and is not an adapter for the plain lock
+    import hashlib as _hl
+    def _ext(tape, stack, cache):
+        if b'sigext' not in cache: return
+        if 'sigfield2_orig' not in cache: cache['sigfield2_orig'] = cache.get('sigfield2', b'')
+        cache['sigfield2'] = _hl.sha256(cache['sigfield2_orig']).digest()
+    F.add_signature_extension(_ext)
+    try:
+        for it in range(ctx.n(6, 40)):
+            seed = V.rbytes(rng, 32); X = bytes(SigningKey(seed).verify_key)
+            t_raw = V.rbytes(rng, 32); t = clamp(t_raw); Tp = nb.crypto_scalarmult_ed25519_base_noclamp(t)
+            sf = {'sigfield1': V.rbytes(rng, 8), 'sigfield2': V.rbytes(rng, rng.choice([1, 24, 60]))}
+            prefix = '@= sigext [ x02 ]'
+            res.note_case(('prefix-extension', seed, t_raw))
+            try:
+                l1, l3 = T.make_adapter_locks_pub(X, Tp)
+                e1 = T.Script.from_src(prefix + ' ' + l1.src); e3 = T.Script.from_src(prefix + ' ' + l3.src)
+                w1 = T.make_adapter_witness(seed, Tp, sf, sign_script_prefix=prefix)
+                with vmrun.Env(cfg) as env:
+                    a_ = env.F.run_auth_scripts([w1.bytes, e1.bytes], dict(sf))
+                    b_ = env.F.run_auth_scripts([w1.bytes, l1.bytes], dict(sf))
+                    sg = T.decrypt_adapter(w1, t_raw)
+                    c_ = env.F.run_auth_scripts([T.Script.from_src('push x' + sg.hex()).bytes, e3.bytes], dict(sf))
+                inp = {'seed': seed.hex(), 'tweak': t_raw.hex(), 'sigfields': {k: v.hex() for k, v in sf.items()}, 'sign_script_prefix': prefix, 'extension': 'sigfield2 := sha256(sigfield2) when cache[b"sigext"] is set'}
+                if not a_: viol('adapter witness built with a sign_script_prefix vs the adapter lock carrying the same prefix', inp, 'True', a_)
+                if b_: viol('adapter witness built with a sign_script_prefix passes the plain adapter lock (another message)', inp, 'False', b_)
+                if not c_: viol('decrypted signature of a prefixed adapter witness vs the prefixed signature lock', inp, 'True', c_)
+            except BaseException as e:
+                if isinstance(e, (KeyboardInterrupt, SystemExit)): raise
+                viol('adapter builders with a sign_script_prefix raised', {'seed': seed.hex()}, 'no exception', type(e).__name__ + ': ' + str(e)[:100])
+    finally:
+        F.remove_signature_extension(_ext)
     # model vs implementation
     if ctx.driver.available:
         try:
